@@ -624,4 +624,45 @@ def LogState.emit (flags : Nat) (env : Env) (indent pad0 pad1 : Nat) (s : LogSta
   { buffer := s.buffer ++ e.bytes,
     content := s.content ++ logInstructionEmitted flags env indent pad0 pad1 e.instId e.options e.extra e.ops e.bytes e.rel e.imm e.comment }
 
+/-! ## core/formatter.cpp: Formatter::format_node / format_node_list (Builder nodes) -/
+
+/-- the Builder nodes whose text is modelled (`NodeType::kInst/kJump`, `kLabel`, `kAlign`, `kEmbedData`, `kComment`, `kSection`) -/
+inductive Node
+  | inst (id opts : Nat) (extra : ExtraReg) (ops : List Operand)
+  | label (id : Nat)
+  | align (mode n : Nat)
+  | embedData (size count rep : Nat)
+  | comment (text : Str)
+  | section (name : Str)
+  deriving Repr
+
+/-- `format_data_type`: `word_name_table[ArchTraits::type_name_id_by_index(log2 size)]` — x86: db dw dd dq, AArch64: byte hword word xword -/
+def wordName (arch : Arch) (size : Nat) : Str :=
+  (match arch, size with
+   | .a64, 1 => "byte" | .a64, 2 => "hword" | .a64, 4 => "word" | .a64, _ => "xword"
+   | _, 1 => "db" | _, 2 => "dw" | _, 4 => "dd" | _, _ => "dq").toList
+
+/-- the `switch (node->type())` of `format_node` -/
+def formatNodeBody (flags : Nat) (env : Env) : Node → Str
+  | .inst id opts extra ops => formatInstruction flags env id opts extra ops
+  | .label id => formatLabel env id ++ [':']
+  | .align mode n => ".align ".toList ++ uintStr n ++ " (".toList ++ (if mode = 0 then "code" else "data").toList ++ [')']
+  | .embedData size count rep =>
+    ['.'] ++ wordName env.arch size ++ " {Count=".toList ++ uintStr count ++ " Repeat=".toList ++ uintStr rep ++
+      " TotalSize=".toList ++ uintStr (size * count) ++ ['}']
+  | .comment t => "; ".toList ++ t
+  | .section name => ".section ".toList ++ name
+
+/-- `Formatter::format_node` (no kPositions prefix: Builder nodes carry no position before the compiler passes):
+    a comment node returns at once; otherwise an inline comment is padded to the regular-line column and appended after `; ` -/
+def formatNode (flags : Nat) (env : Env) (pad0 : Nat) (n : Node) (inl : Option Str) : Str :=
+  match n, inl with
+  | .comment t, _ => formatNodeBody flags env (.comment t)
+  | n, some c => padEnd (formatNodeBody flags env n) (paddingOf pad0 44) ++ [';', ' '] ++ c
+  | n, none => formatNodeBody flags env n
+
+/-- `Formatter::format_node_list`: every node's text followed by a newline -/
+def formatNodeList (flags : Nat) (env : Env) (pad0 : Nat) (nodes : List (Node × Option Str)) : Str :=
+  nodes.flatMap fun p => formatNode flags env pad0 p.1 p.2 ++ ['\n']
+
 end AsmjitVerif.Format
